@@ -6,10 +6,11 @@
 
 For every mutant of the file (one syntactic change: comparison / boolean / constant / slice / membership
 element / statement deletion / early return / variable swap / keyword dropped ...):
-  1. the pinned test suite is run on a scratch copy of /repo's src+tests with the mutant applied; a mutant the
-     suite kills is not a "realistic change that passes the existing tests" and is dropped;
-  2. the given checks are run (quick tier, DIPPY_REPO = the scratch tree, from a worker-private copy of /verif);
-     the mutant is KILLED when one of them exits non-zero, otherwise it SURVIVES.
+  1. the given checks are run (quick tier, DIPPY_REPO = the scratch tree, from a worker-private copy of /verif);
+     the mutant is KILLED when one of them exits non-zero;
+  2. a mutant no check kills is run through the pinned test suite (scratch copy of /repo with the mutant applied):
+     one the suite kills is not a "realistic change that passes the existing tests" and is dropped, the others
+     SURVIVE.  (--suite first runs the suite before the checks, --suite never skips it.)
 Survivors are either equivalent (no observable change of any verdict) or show a gap in the generators.
 Everything lives under $MUT_SCRATCH (default /tmp/mut) and is removed at the end; /repo is never touched."""
 from __future__ import annotations
@@ -256,13 +257,15 @@ def run_one(wd, rel, text, original, checks, skip_suite):
     res = {"suite": None, "killed_by": None, "checks": {}}
     with open(target, "w") as f:
         f.write(text)
-    try:
-        if not skip_suite:
-            r = sh([PY, "-m", "pytest", "-q", "-x", "-p", "no:cacheprovider", "--timeout=900", "-o", "addopts=", "-n", "3", "--deselect",
+    def suite():
+        r = sh([PY, "-m", "pytest", "-q", "-x", "-p", "no:cacheprovider", "--timeout=900", "-o", "addopts=", "-n", "3", "--deselect",
                     "tests/test_config.py::TestLoadConfig::test_unreadable_user_config"], cwd=tree, env={**os.environ, "PYTHONPATH": os.path.join(tree, "src")}, timeout=1800)
-            res["suite"] = "pass" if r.returncode == 0 else "fail"
-            if r.returncode != 0:
-                return res
+        res["suite"] = "pass" if r.returncode == 0 else "fail"
+        return r.returncode == 0
+
+    try:
+        if skip_suite == "first" and not suite():
+            return res
         for c in checks:
             t0 = time.time()
             try:
@@ -275,6 +278,8 @@ def run_one(wd, rel, text, original, checks, skip_suite):
             if rc != 0:
                 res["killed_by"] = c
                 break
+        if skip_suite == "last" and res["killed_by"] is None:
+            suite()  # only survivors are worth the suite's time: one it kills was never a realistic change
     finally:
         with open(target, "w") as f:
             f.write(original)
@@ -293,7 +298,8 @@ def main():
     ap.add_argument("--max", type=int, default=0)
     ap.add_argument("-j", type=int, default=12)
     ap.add_argument("--out")
-    ap.add_argument("--skip-suite", action="store_true")
+    ap.add_argument("--suite", choices=["first", "last", "never"], default="last",
+                    help="run the pinned suite before the checks, only on mutants the checks do not kill (default), or never")
     args = ap.parse_args()
     path = os.path.join(REPO, "src", args.file)
     original = open(path).read()
@@ -325,11 +331,11 @@ def main():
         s, text = m
         wd = free.pop()
         try:
-            r = run_one(wd, args.file, text, original, checks, args.skip_suite)
+            r = run_one(wd, args.file, text, original, checks, args.suite)
         finally:
             free.append(wd)
         r.update({"id": s.id, "line": s.lineno, "func": s.func, "op": s.op, "desc": s.desc})
-        status = "suite-killed" if r["suite"] == "fail" else ("KILLED by " + r["killed_by"] if r["killed_by"] else "SURVIVED")
+        status = ("KILLED by " + r["killed_by"]) if r["killed_by"] else ("suite-killed" if r["suite"] == "fail" else "SURVIVED")
         print(f"[{time.time() - t0:6.0f}s] #{s.id} line {s.lineno} {s.func} {s.op} {s.desc}: {status}", flush=True)
         return r
 
@@ -337,7 +343,7 @@ def main():
         results = list(ex.map(job, ms))
     for wd in workers:
         shutil.rmtree(wd, ignore_errors=True)
-    considered = [r for r in results if r["suite"] != "fail"]
+    considered = [r for r in results if r["suite"] != "fail" or r["killed_by"]]
     killed = [r for r in considered if r["killed_by"]]
     summary = {"file": args.file, "checks": checks, "mutants": len(results), "suite_killed": len(results) - len(considered),
                "passing_suite": len(considered), "killed_by_checks": len(killed), "survived": len(considered) - len(killed),
